@@ -163,6 +163,8 @@ def lattice_rule(ctx, p, K):
         ok_c = False
         if len(rets) == 1 and isinstance(rets[0].value, ast.BinOp) and isinstance(rets[0].value.op, ast.Add):
             l, r = rets[0].value.left, rets[0].value.right
+            if not (isinstance(l, ast.BinOp) and isinstance(l.op, ast.Mult)):
+                l, r = r, l
             ok_c = norm_text(l).replace(" ", "") in ("self.scaling_factors*self.coordinates", "self.coordinates*self.scaling_factors")
             off = _vec2(K, r, env, S0, cen)
         tri = ab.lookup("triangles")
@@ -172,8 +174,11 @@ def lattice_rule(ctx, p, K):
         if len(rets) == 1 and isinstance(rets[0].value, ast.Call) and norm_text(rets[0].value.func) in ("np.stack", "numpy.stack") and isinstance(rets[0].value.args[0], (ast.Tuple, ast.List)):
             ok_t = norm_text(wire.kw(rets[0].value).get("axis")) == "1"
             for el in rets[0].value.args[0].elts:
-                if isinstance(el, ast.BinOp) and isinstance(el.op, ast.Add) and norm_text(el.left) == "centres" and isinstance(el.right, ast.BinOp) and isinstance(el.right.op, ast.Mult) and norm_text(el.right.left) == "self.flip_array":
-                    v = _vec2(K, el.right.right, env, S0, tri)
+                if not (isinstance(el, ast.BinOp) and isinstance(el.op, ast.Add)):
+                    continue
+                cpart, mpart = (el.left, el.right) if norm_text(el.left) == "centres" else (el.right, el.left)
+                if norm_text(cpart) == "centres" and isinstance(mpart, ast.BinOp) and isinstance(mpart.op, ast.Mult) and "self.flip_array" in (norm_text(mpart.left), norm_text(mpart.right)):
+                    v = _vec2(K, mpart.right if norm_text(mpart.left) == "self.flip_array" else mpart.left, env, S0, tri)
                     if v:
                         offs.append(v)
         cen_local = [norm_text(n.value) for n in tri.body_nodes() if isinstance(n, ast.Assign) and norm_text(n.targets[0]) == "centres"]
@@ -218,17 +223,21 @@ def lattice_rule(ctx, p, K):
                     d = (0, 0)
                     core = el
                     if isinstance(el, ast.BinOp) and isinstance(el.op, ast.Add):
-                        core = el.left
-                        r = el.right
+                        # m*C[sel] + np.array([dx, dy]), either operand order
+                        core, r = el.left, el.right
+                        if isinstance(core, ast.Call) and norm_text(core.func) in ("np.array", "numpy.array"):
+                            core, r = r, core
                         if isinstance(r, ast.Call) and norm_text(r.func) in ("np.array", "numpy.array"):
                             try:
                                 d = tuple(ast.literal_eval(r.args[0]))
                             except Exception:
                                 return None
+                        else:
+                            return None
                     mult = 1
-                    if isinstance(core, ast.BinOp) and isinstance(core.op, ast.Mult) and isinstance(core.left, ast.Constant):
-                        mult = core.left.value
-                        core = core.right
+                    if isinstance(core, ast.BinOp) and isinstance(core.op, ast.Mult) and (isinstance(core.left, ast.Constant) or isinstance(core.right, ast.Constant)):
+                        cst, core = (core.left, core.right) if isinstance(core.left, ast.Constant) else (core.right, core.left)
+                        mult = cst.value
                     t = norm_text(core)
                     if t == "self.coordinates[~self.flip_mask]":
                         out["normal"].append((mult, d))
@@ -321,9 +330,28 @@ def lattice_rule(ctx, p, K):
     so = SelfObj(co, {"side_length": s}, K)
     env = {"self": so}
     rets = wire.returns_of(mm)
-    v = K.scalar(K.ev(rets[0].value.left, env, S0, mm, (), (), 0)) if rets and isinstance(rets[0].value, ast.BinOp) and isinstance(rets[0].value.op, ast.Mult) else None
+    # product of factors, exactly one of which is len(self); the rest must multiply to sqrt(3)/4 * side^2
+    facs = []
+
+    def _flat(e):
+        if isinstance(e, ast.BinOp) and isinstance(e.op, ast.Mult):
+            _flat(e.left)
+            _flat(e.right)
+        else:
+            facs.append(e)
+    if rets:
+        _flat(rets[0].value)
+    n_len = [e for e in facs if norm_text(e) == "len(self)"]
+    v = None
+    if len(n_len) == 1:
+        v = Poly.const(1)
+        for e in facs:
+            if e is n_len[0]:
+                continue
+            pv = K.scalar(K.ev(e, env, S0, mm, (), (), 0))
+            v = v * pv if isinstance(pv, Poly) and isinstance(v, Poly) else None
     want = Poly.fn("sqrt", Poly.const(3)) * Poly.const(Fraction(1, 4)) * s * s
-    ctx.ob("C20.lattice", mm.key, isinstance(v, Poly) and v == want and norm_text(rets[0].value.right) == "len(self)", where=mm, node=mm.node, construct=repr(v), message=f"area must be sqrt(3)/4 * side^2 per triangle; expected {want!r} * len(self)")
+    ctx.ob("C20.lattice", mm.key, isinstance(v, Poly) and v == want and len(n_len) == 1, where=mm, node=mm.node, construct=repr(v), message=f"area must be sqrt(3)/4 * side^2 per triangle; expected {want!r} * len(self)")
 
 
 def containment_rule(ctx, p, K):
